@@ -412,8 +412,19 @@ def _obs(kind: Kind, obj, err: Optional[str], where: str) -> Dict[str, Any]:
     return o
 
 
+def _build(thunk, what: str):
+    """construct the initial object; the generators only produce arguments of the documented domain, so a
+    documented refusal here is a failure of its own kind (and keeps the case minimiser inside the domain)"""
+    try:
+        return thunk()
+    except Exception as e:  # noqa
+        if exc_category(e) not in DOCUMENTED:
+            raise
+        raise SelfCheckFailure(f"{what} refused arguments of the documented domain: {type(e).__name__}: {e}")
+
+
 def _run(kind: Kind, a) -> Dict[str, Any]:
-    obj = kind.build(a)
+    obj = _build(lambda: kind.build(a), "constructor / decoder")
     out = {"initial": _obs(kind, obj, None, "after construction"), "steps": []}
     for i, s in enumerate(a["steps"]):
         err = None
@@ -561,9 +572,9 @@ INPUT_BUILDERS = _inputs_builders()
 
 def op_inputs(a):
     """construct and pack (twice): every caller-supplied argument object is afterwards what it was before"""
-    args, ctor = INPUT_BUILDERS[a["kind"]](a)
+    args, ctor = _build(lambda: INPUT_BUILDERS[a["kind"]](a), "argument constructors")
     before = [_snap(x) for x in args]
-    obj = ctor()
+    obj = _build(ctor, "constructor")
     after_ctor = [_snap(x) for x in args]
     if after_ctor != before:
         i = next(i for i in range(len(before)) if before[i] != after_ctor[i])
@@ -587,14 +598,19 @@ def op_inputs(a):
 
 def op_conf(a):
     """the object's direction and the caller's configuration after construction and pack()"""
-    conf = c06._conf(a)
+    conf = _build(lambda: c06._conf(a), "PduConfig")
+    before = _snap_conf(conf)
     if a["kind"] == "nak":
-        p = NakPdu(conf, 0, 0, [])
+        p = _build(lambda: NakPdu(conf, 0, 0, []), "constructor")
     elif a["kind"] == "keepalive":
-        p = KeepAlivePdu(conf, 0)
+        p = _build(lambda: KeepAlivePdu(conf, 0), "constructor")
     else:
-        p = FileDataPdu(conf, FileDataParams.empty())
+        p = _build(lambda: FileDataPdu(conf, FileDataParams.empty()), "constructor")
+    if _snap_conf(conf) != before:
+        raise SelfCheckFailure(f"the constructor modified the caller's PduConfig: {before!r} -> {_snap_conf(conf)!r}")
     p.pack()
+    if _snap_conf(conf) != before:
+        raise SelfCheckFailure(f"pack() modified the caller's PduConfig: {before!r} -> {_snap_conf(conf)!r}")
     s, d, q = conf.source_entity_id, conf.dest_entity_id, conf.transaction_seq_num
     return {"obj_dir": int(p.pdu_header.direction),
             "caller": {"src_w": int(s.byte_len), "src_v": int(s.value), "dst_w": int(d.byte_len), "dst_v": int(d.value),
